@@ -190,6 +190,10 @@ def register(reg):
     reg.contract("werkzeug/datastructures/structures.py:iter_multi_items", prop="C05,C08", trusted=True, modifies=[],
                  params={"mapping": "List[Tuple[str, str]]"}, returns="List[Tuple[str, str]]", returns_expr="mapping",
                  note="(key, value) pairs of a MultiDict / dict / iterable of pairs: for an iterable of pairs, the pairs themselves")
+    # the body, for the case the summary above is about (an iterable of pairs: neither a MultiDict nor a Mapping)
+    reg.contract("werkzeug/datastructures/structures.py:iter_multi_items#verify", prop="C05,C08", modifies=[],
+                 params={"mapping": "List[Tuple[str, str]]"}, returns="List[Tuple[str, str]]",
+                 ensures=["result == mapping"], raises={})
     reg.contract(
         "werkzeug/datastructures/headers.py:Headers.extend", prop="C05,C08", self_model=H,
         params={"arg": "Optional[List[Tuple[str, str]]]"}, modifies=["self._list"],
